@@ -1,6 +1,8 @@
 package keeper
 
 import (
+	"fmt"
+
 	sdk "github.com/cosmos/cosmos-sdk/types"
 	epochstypes "github.com/elys-network/elys/x/epochs/types"
 )
@@ -21,9 +23,25 @@ func (k Keeper) EpochHooks() EpochHooks {
 func (h EpochHooks) BeforeEpochStart(ctx sdk.Context, epochIdentifier string, epochNumber int64) error {
 	params := h.k.GetParams(ctx)
 	if epochIdentifier == params.ProviderVestingEpochIdentifier {
-		return h.k.ClaimAndVestProviderStakingRewards(ctx)
+		// the epochs begin-blocker panics on a hook error and a failing block halts the chain: claim and vest on a cache
+		// context, keep the result only on success, and otherwise log and try again at the next epoch
+		cacheCtx, write := ctx.CacheContext()
+		if err := h.k.claimAndVestProviderStakingRewardsNoPanic(cacheCtx); err != nil {
+			ctx.Logger().Error("provider staking rewards were not claimed and vested", "error", err)
+			return nil
+		}
+		write()
 	}
 	return nil
+}
+
+func (k Keeper) claimAndVestProviderStakingRewardsNoPanic(ctx sdk.Context) (err error) {
+	defer func() {
+		if r := recover(); r != nil {
+			err = fmt.Errorf("panic: %v", r)
+		}
+	}()
+	return k.ClaimAndVestProviderStakingRewards(ctx)
 }
 
 // AfterEpochEnd implements EpochHooks
